@@ -6,13 +6,15 @@
        instructions modulo comments.
    Back ends are plugged in through Model/SubstGen.sbackend. *)
 From Coq Require Import List ZArith NArith String Bool.
-From SCC Require Import Base.Sexp Lang.AxSyn Model.Backend Model.RunBase Model.SubstGen Model.SubstX86.
+From SCC Require Import Base.Sexp Lang.AxSyn Model.Backend Model.RunBase Model.SubstGen Model.SubstX86 Model.SubstA64 Model.SubstRV.
 Import ListNotations.
 Open Scope string_scope.
 
 Definition sbackend_of (name : string) : option sbackend :=
   match name with
   | "x86" => Some x86_sbackend
+  | "a64" => Some a64_sbackend
+  | "rv" => Some rv_sbackend
   | _ => None
   end.
 
